@@ -51,9 +51,16 @@ class Router;
 struct HyperedgeTreeEdge;
 struct HyperedgeTreeNode;
 
-typedef std::map<JunctionRef *, HyperedgeTreeNode *>
+// Orders junctions by their ID, rather than by pointer value, so the order
+// of hyperedge processing does not depend on where objects were allocated.
+struct CmpJunctionRefPtrById
+{
+    bool operator()(const JunctionRef *lhs, const JunctionRef *rhs) const;
+};
+
+typedef std::map<JunctionRef *, HyperedgeTreeNode *, CmpJunctionRefPtrById>
         JunctionHyperedgeTreeNodeMap;
-typedef std::set<JunctionRef *> JunctionSet;
+typedef std::set<JunctionRef *, CmpJunctionRefPtrById> JunctionSet;
 typedef std::list<JunctionRef *> JunctionRefList;
 typedef std::list<ConnRef *> ConnRefList;
 
